@@ -244,6 +244,7 @@ class Parser(ThreeSixParser):
             # If posonlyargs contain default arguments, all following arguments must have defaults.
             if p[1].defaults and (len(p[3].defaults) != len(p[3].args)):
                 self._set_error("non-default argument follows default argument")
+            p0.defaults = p[1].defaults + p0.defaults
         else:
             p0 = p[1]
         p[0] = p0
@@ -396,6 +397,7 @@ class Parser(ThreeSixParser):
             # If posonlyargs contain default arguments, all following arguments must have defaults.
             if p[1].defaults and (len(p[3].defaults) != len(p[3].args)):
                 self._set_error("non-default argument follows default argument")
+            p0.defaults = p[1].defaults + p0.defaults
         else:
             p0 = p[1]
         p[0] = p0
